@@ -1,6 +1,7 @@
 import StepModel.P21.ReaderLemmas13
 import StepModel.P21.ReaderLemmas15
 import StepModel.P21.ReaderLemmas16
+import StepModel.P21.ReaderLemmas19
 import StepModel.Generated.P21RWGen
 /-! # C03 — the reader never reports a violating file as clean: property theorems
 
@@ -1006,6 +1007,145 @@ theorem C03_violation_confined_partial {F} (ops : FloatOps F) (lex : LexCfg) (cf
   rw [C03_exit_iff_worse_than_usermsg, hsev]
   exact errAfter_bad xs x hx hb .null
 
+/-! ### confinement in data sections that mix internally and externally mapped records -/
+
+theorem errAfterI_le {F} (xs : List (Item F)) : ∀ e : Sev, (errAfterI e xs).toInt ≤ e.toInt := by
+  induction xs with
+  | nil => intro e; exact Int.le_refl _
+  | cons x xs ih =>
+    intro e
+    exact Int.le_trans (ih (appendEntityError e x.sev)) (appendEntityError_le e x.sev)
+
+theorem errAfterI_bad {F} (xs : List (Item F)) (x : Item F) (hx : x ∈ xs) (hb : x.sev.toInt < Sev.usermsg.toInt) :
+    ∀ e : Sev, (errAfterI e xs).toInt < Sev.usermsg.toInt := by
+  induction xs with
+  | nil => cases hx
+  | cons y ys ih =>
+    intro e
+    rcases List.mem_cons.mp hx with rfl | hx'
+    · exact Int.lt_of_le_of_lt (errAfterI_le ys _) (appendEntityError_bad e x.sev hb)
+    · exact ih hx' _
+
+/-- a record of a data section with the layout behind it and what pass 2 makes of it: an internally mapped record with
+    its outcome (`Step`), or an externally mapped record `#id = ( PART(…) PART(…) … );` -/
+inductive AnyStep (F : Type) where
+  | simple (x : Step F)
+  | complex (r : CRec F) (g : List Byte)
+
+/-- the record as the loops of the two passes see it -/
+def AnyStep.item {F} (d : Dict) : AnyStep F → Item F
+  | .simple x => { body := x.r.text [], g := x.g, id := x.r.id, mkI := mkInst d x.rg, out := x.out, sev := x.sev }
+  | .complex r g => { body := r.text [], g := g, id := r.id, mkI := mkCInst d r, out := finCInstOf d r, sev := .null }
+
+/-- internally mapped records are `Marked` or `Flawed` as in `C03_violation_confined_partial`; externally mapped records
+    conform: known parts in a legal combination, every part's parameter list read without a message (`CPartOKF`; for the
+    kinds of `Covered` this is C01's `cpartCovered_okF`) -/
+def AnyStepOK {F} (env : Env F) (strict : Bool) : AnyStep F → Prop
+  | .simple x => Rec1OK env.dict x.rg ∧ (Marked env strict x ∨ Flawed env strict x)
+  | .complex r g => r.Lex ∧ Seps g ∧
+      env.dict.complexSets.contains (sortNames ((r.parts.map (·.name)).filter (fun n => (env.dict.entity? n).isSome))) = true ∧
+      (∀ c ∈ r.parts, (env.dict.entity? c.name).isSome = true) ∧
+      ∀ c ∈ r.parts, CPartOKF env (env.cfg.complexPartStrict.getD strict) c
+
+/-- **the violation is confined, externally mapped records included** (`_partial`): `C03_violation_confined_partial` for a
+    data section in which conforming externally mapped records stand between the internally mapped ones, in any order and
+    number.  A violating (`Marked` with a severity, or `Flawed`) internally mapped record leaves every externally mapped
+    record before and after it complete with the values of its parts' tokens, and the other way round every internally
+    mapped record keeps exactly the outcome it has on its own; the severities reported are those of the records in file
+    order (NULL for the externally mapped ones), and one record worse than a user message makes p21read exit with 1.
+    Proved over the abstract-record loops (ReaderLemmas18/19: `readDataSection_itemsF`) with `skipws` shown to stay off
+    through an externally mapped record (`readInstance_crec_flag`).  Not covered: a violation *inside* an externally
+    mapped record at file level (record level: `C03_part_attribute_error_reaches_complex_instance`). -/
+theorem C03_violation_confined_mixed_partial {F} (ops : FloatOps F) (lex : LexCfg) (cfg : RWCfg) (d : Dict) (strict : Bool)
+    (hskip : cfg.skipInstanceSkipsComments = true) (hrs : cfg.errorResyncsFromStart = true)
+    (hrep : cfg.complexReportsError = true)
+    (ys : List (AnyStep F)) (g0 sp gE after : List Byte) (hg0 : Seps g0) (hsp : sp.all isSpace = true) (hgE : Seps gE)
+    (hnd : (ys.map (fun y => (y.item d).id)).Nodup)
+    (hok : ∀ y ∈ ys, AnyStepOK { ops := ops, lex := lex, cfg := cfg, dict := d,
+                                 lookup := Mgr.lookup d ({ insts := ys.map (fun y => (y.item d).mkI) } : Mgr F) } strict y) :
+    ∃ res, readDataSection ops lex cfg d strict false
+        (g0 ++ renderItems (ys.map (AnyStep.item d)) (endsec sp (gE ++ (endIso ++ 59 :: after)))) = .ok res ∧
+      res.mgr.insts = ys.map (fun y => (y.item d).out) ∧ res.reported = (ys.map (fun y => (y.item d).sev)).reverse ∧
+      res.created = ys.length ∧ res.valid = ys.length ∧
+      ((∃ y ∈ ys, (y.item d).sev.toInt < Sev.usermsg.toInt) → exitStatus res.sev = 1) := by
+  let xs : List (Item F) := ys.map (AnyStep.item d)
+  have hmk : xs.map (·.mkI) = ys.map (fun y => (y.item d).mkI) := by simp [xs, List.map_map, Function.comp_def]
+  obtain ⟨res, hr, hm, hsev, hc, _, hv, _, hrp⟩ :=
+    readDataSection_itemsF ops lex cfg hskip d strict sp _ hsp (tailOK_endIso gE hgE after) xs g0 hg0
+      (by
+        intro x hx
+        obtain ⟨y, hym, rfl⟩ := List.mem_map.mp hx
+        cases y with
+        | simple x =>
+          obtain ⟨⟨hl, hg, hscan, e, he, habs⟩, _⟩ := hok _ hym
+          have he' : d.entity? x.r.name = some e := he
+          refine ⟨hg, rfl, ?_⟩
+          intro m hnone l c k hc h47 h92
+          obtain ⟨l', h⟩ := createInstance_rec cfg hskip d m x.r hl hscan hnone e he' habs l x.g hg c k hc h47 h92
+          refine ⟨l', ?_⟩
+          show createInstance cfg d m (G l (x.r.text [] ++ (x.g ++ c :: k)) false) = _
+          rw [text_nil_append, h]
+          simp [AnyStep.item, mkInst, Step.rg, he']
+        | complex r g =>
+          obtain ⟨hl, hg, hlegal, _, _⟩ := hok _ hym
+          refine ⟨hg, rfl, ?_⟩
+          intro m hnone l c k hc h47 h92
+          obtain ⟨l', h⟩ := createInstance_crec cfg hskip d m r hl hnone hlegal l g hg c k hc h47 h92
+          refine ⟨l', ?_⟩
+          show createInstance cfg d m (G l (r.text [] ++ (g ++ c :: k)) false) = _
+          rw [ctext_nil_append]
+          exact h)
+      (by simpa [xs, List.map_map, Function.comp_def] using hnd)
+      (by
+        intro x hx
+        obtain ⟨y, hym, rfl⟩ := List.mem_map.mp hx
+        rw [hmk]
+        cases y with
+        | simple x =>
+          obtain ⟨_, h2⟩ := hok _ hym
+          rcases h2 with ⟨hlex, hg, hscan, qs, e, hqs, hpar, hent, hattrs, hsv, hout⟩ | ⟨hlex, hg, hscan, hle, e, vals, hent, hout, hrd⟩
+          · refine ⟨hg, rfl, by show x.out.id = x.r.id; rw [hout], by show keyOf x.out = keyOf (mkInst d x.rg); rw [hout]; rfl, ?_⟩
+            intro st l rest hfind hlk hs
+            have hs' : st.s = G l (x.r.text rest) false := by rw [← text_nil_append]; exact hs
+            obtain ⟨l', h⟩ := readInstance_params ops lex cfg d strict hskip st x.r hlex qs hqs
+              (by intro q hq; rw [hlk]; exact hpar q hq) hscan l rest hs' (mkInst d x.rg) hfind rfl rfl
+              { name := x.r.name, vals := match d.entity? x.r.name with | some e => defaults e.attrs | none => [] } rfl e hent hattrs
+            refine ⟨l', ?_⟩
+            show readInstance ops lex cfg d strict st = .ok { s := G l' rest false, inst := some x.out, reported := some x.sev, left := some .null }
+            rw [h, hout, hsv]
+            rfl
+          · refine ⟨hg, rfl, by show x.out.id = x.r.id; rw [hout], by show keyOf x.out = keyOf (mkInst d x.rg); rw [hout]; rfl, ?_⟩
+            intro st l rest hfind hlk hs
+            have hs' : st.s = G l (x.r.text rest) false := by rw [← text_nil_append]; exact hs
+            obtain ⟨l', h⟩ := C03_error_resync_confines ops lex cfg d strict hrs hskip st x.r hlex hscan l rest false hs'
+              (mkInst d x.rg) hfind rfl rfl
+              { name := x.r.name, vals := match d.entity? x.r.name with | some e => defaults e.attrs | none => [] } rfl e hent
+              x.sev vals (by intro L; rw [hlk]; exact hrd L rest) hle
+            refine ⟨l', ?_⟩
+            show readInstance ops lex cfg d strict st = .ok { s := G l' rest false, inst := some x.out, reported := some x.sev, left := some .null }
+            rw [h, hout]
+            rfl
+        | complex r g =>
+          obtain ⟨hl, hg, hlegal, hknown, hparts⟩ := hok _ hym
+          refine ⟨hg, rfl, rfl, ?_, ?_⟩
+          · show keyOf (finCInstOf d r) = keyOf (mkCInst d r)
+            simp only [keyOf, finCInstOf, setParts_names]
+          · intro st l rest hfind hlk hs
+            have hs' : st.s = G l (r.text rest) false := by rw [← ctext_nil_append]; exact hs
+            obtain ⟨l', sk', hsk, h⟩ := readInstance_crec_flag ops lex cfg d strict st hrep r hl l rest false hs' (mkCInst d r) hfind rfl rfl
+              (fun c hc => by rw [hlk]; exact hparts c hc) (mkCInst_names d r hknown)
+            have : sk' = false := by rcases hsk with h | h <;> exact h
+            subst this
+            exact ⟨l', h⟩)
+  refine ⟨res, hr, ?_, ?_, ?_, ?_, ?_⟩
+  · rw [hm]; simp [xs, List.map_map, Function.comp_def]
+  · rw [hrp]; simp [xs, List.map_map, Function.comp_def]
+  · rw [hc]; simp [xs]
+  · rw [hv]; simp [xs]
+  · rintro ⟨y, hy, hb⟩
+    rw [C03_exit_iff_worse_than_usermsg, hsev]
+    exact errAfterI_bad xs (y.item d) (List.mem_map_of_mem hy) hb .null
+
 /-- **confinement with skipped records** (`_partial`, extends `C03_violation_confined_partial` by the violations that end in
     a record neither pass reads: a keyword that names no entity of the dictionary, or an abstract one; duplicate ids and
     a missing `=` are not covered).  Records flagged `true` are `Marked` or `Flawed` as before; records flagged `false`
@@ -1765,6 +1905,97 @@ theorem C03_violation_confined_witness :
         refine ⟨rfl, ⟨53, [], rfl, by decide, by decide, by decide⟩, sepsNil, fun l sk d rest hd => ⟨sk, Or.inl rfl, ?_⟩⟩
         exact attr_integer _ false wAttrX rfl rfl (by decide) [53] (by decide) (by decide) (by decide) l sk [] sepsNil d rest hd)
   exact ⟨res, hr, hm, hrep, hex ⟨wBad, by simp, by decide⟩⟩
+
+/-! ### … and of the mixed theorem: `#1=A(X);` `#2=(A(5)B(7));` - a violating internally mapped record before an
+    externally mapped one; both outcomes and exit 1 follow from `C03_violation_confined_mixed_partial` -/
+def wAttrY : AttrD := { name := "y", ty := .one .integer, optional := false }
+def mxDict : Dict :=
+  { entities := [{ name := "A", attrs := [wAttrX], ancestors := ["A"] }, { name := "B", attrs := [wAttrY], ancestors := ["B"] }],
+    selects := [], complexSets := [["A", "B"]] }
+def mxP5 : Param Nat := { a := wAttrX, v := .one (.atom (.int (Grammar.denoteInteger [53]))), tok := [53], before := [], after := [] }
+def mxP7 : Param Nat := { a := wAttrY, v := .one (.atom (.int (Grammar.denoteInteger [55]))), tok := [55], before := [], after := [] }
+def mxPartA : CPart Nat := { n0 := 65, ns := [], sA := [], body := renderParams [mxP5], sB := [], vals := [mxP5.v] }
+def mxPartB : CPart Nat := { n0 := 66, ns := [], sA := [], body := renderParams [mxP7], sB := [], vals := [mxP7.v] }
+def mxCRec : CRec Nat := { ds := [50], s1 := [], s2 := [], parts := [mxPartA, mxPartB], s4 := [] }
+def mxSteps : List (AnyStep Nat) := [.simple wBad, .complex mxCRec [10]]
+def mxEnv : Env Nat :=
+  { ops := dblOps, lex := Generated.rwLexCfg, cfg := Generated.rwCfg, dict := mxDict,
+    lookup := Mgr.lookup mxDict ({ insts := mxSteps.map (fun y => (y.item mxDict).mkI) } : Mgr Nat) }
+def mxStrict : Bool := Generated.rwCfg.complexPartStrict.getD false
+
+theorem C03_violation_confined_mixed_witness :
+    ∃ res, readDataSection dblOps Generated.rwLexCfg Generated.rwCfg mxDict false false
+        ([10] ++ renderItems (mxSteps.map (AnyStep.item mxDict)) (endsec [] ([10] ++ (endIso ++ 59 :: [10])))) = .ok res ∧
+      res.mgr.insts = [wBad.out, finCInstOf mxDict mxCRec] ∧ res.reported = [Sev.null, Sev.warning] ∧
+      exitStatus res.sev = 1 := by
+  have sepsNil : Seps ([] : List Byte) := Seps.blanks [] (by decide)
+  have sepsNl : Seps ([10] : List Byte) := Seps.blanks [10] (by decide)
+  have hlexB : wBad.r.Lex := ⟨by decide, by decide, by decide, sepsNil, sepsNil, sepsNil, sepsNil, by decide, by decide, by decide⟩
+  have hscanB : ∀ q ∈ wBad.r.ps, ParamScan q := by
+    intro q hq
+    simp only [wBad, List.mem_singleton] at hq
+    subst hq
+    exact ⟨(Passes.plain 88 (by decide)).toS, sepsNil, sepsNil⟩
+  have hentA : mxDict.entity? "A" = some { name := "A", attrs := [wAttrX], ancestors := ["A"] } := by decide
+  have hentB : mxDict.entity? "B" = some { name := "B", attrs := [wAttrY], ancestors := ["B"] } := by decide
+  have hint : ∀ (env : Env Nat) (strict : Bool) (a : AttrD) (d : Byte), env.lex.criSkipsComments = true →
+      a.ty = .one .integer → a.derived = false → a.redefining = false → isDigit d = true →
+      Grammar.isInteger [d] = true → IStream.longMin ≤ Grammar.denoteInteger [d] → Grammar.denoteInteger [d] < IStream.longMax →
+      d ≠ 47 → d ≠ 92 →
+      ParamRd env strict { a := a, v := .one (.atom (.int (Grammar.denoteInteger [d]))), tok := [d], before := [], after := [] } .null := by
+    intro env strict a d hcri hty hder hred hd hi hlo hhi h47 h92
+    refine ⟨hred, ⟨d, [], rfl, digit_not_space hd, h47, h92⟩, sepsNil, fun l sk dl rest hdl => ⟨sk, Or.inl rfl, ?_⟩⟩
+    exact attr_integer env strict a hty hder hcri [d] hi hlo hhi l sk [] sepsNil dl rest hdl
+  obtain ⟨res, hr, hm, hrep, _, _, hex⟩ := C03_violation_confined_mixed_partial dblOps Generated.rwLexCfg Generated.rwCfg mxDict false
+    (by decide) (by decide) (by decide) mxSteps [10] [] [10] [10] sepsNl (by decide) sepsNl (by decide)
+    (by
+      intro y hy
+      simp only [mxSteps, List.mem_cons, List.not_mem_nil, or_false] at hy
+      rcases hy with rfl | rfl
+      · refine ⟨⟨hlexB, sepsNl, hscanB, _, hentA, rfl⟩, Or.inl ⟨hlexB, sepsNl, hscanB,
+          [(({ a := wAttrX, v := .one (.atom .unset), tok := [88], before := [], after := [] } : Param Nat), Sev.warning)], _, rfl, ?_, hentA, rfl, rfl, rfl⟩⟩
+        intro q hq
+        simp only [List.mem_singleton] at hq
+        subst hq
+        exact C03_wrong_kind_for_integer_detected _ false wAttrX rfl rfl rfl 88 [] (by decide) (by decide) (by decide) (by decide)
+          (by decide) (by decide) (by decide) (by decide) (by intro _ b hb; simp only [List.mem_singleton] at hb; subst hb; decide)
+          [] sepsNil
+      · refine ⟨⟨by decide, by decide, by decide, sepsNil, sepsNil, sepsNil, List.cons_ne_nil _ _, ?_⟩, sepsNl, by decide, ?_, ?_⟩
+        · intro c hc
+          simp only [mxCRec, List.mem_cons, List.not_mem_nil, or_false] at hc
+          rcases hc with rfl | rfl
+          · exact ⟨by decide, by decide, by decide, by decide, [53], rfl, Bal.plain 53 [] (by decide) (by decide) (by decide) Bal.nil⟩
+          · exact ⟨by decide, by decide, by decide, by decide, [55], rfl, Bal.plain 55 [] (by decide) (by decide) (by decide) Bal.nil⟩
+        · intro c hc
+          simp only [mxCRec, List.mem_cons, List.not_mem_nil, or_false] at hc
+          rcases hc with rfl | rfl <;> decide
+        · intro c hc
+          simp only [mxCRec, List.mem_cons, List.not_mem_nil, or_false] at hc
+          have e1 : accum .null [Sev.null] = .null := by decide
+          rcases hc with rfl | rfl
+          · refine ⟨by decide, by decide, by decide, by decide, _, hentA, ?_⟩
+            intro l sk rest
+            obtain ⟨sk', hsk, h⟩ := instSTEPread_params_sev mxEnv mxStrict [(mxP5, Sev.null)] (List.cons_ne_nil _ _)
+              (by
+                intro q hq
+                simp only [List.mem_singleton] at hq
+                subst hq
+                exact hint mxEnv mxStrict wAttrX 53 (by decide) rfl rfl rfl (by decide) (by decide) (by decide) (by decide) (by decide) (by decide)) l sk rest
+            have e2 : aaccum [(mxP5, Sev.null)] = .null := by decide
+            rw [e2] at h
+            exact ⟨sk', hsk, h⟩
+          · refine ⟨by decide, by decide, by decide, by decide, _, hentB, ?_⟩
+            intro l sk rest
+            obtain ⟨sk', hsk, h⟩ := instSTEPread_params_sev mxEnv mxStrict [(mxP7, Sev.null)] (List.cons_ne_nil _ _)
+              (by
+                intro q hq
+                simp only [List.mem_singleton] at hq
+                subst hq
+                exact hint mxEnv mxStrict wAttrY 55 (by decide) rfl rfl rfl (by decide) (by decide) (by decide) (by decide) (by decide) (by decide)) l sk rest
+            have e2 : aaccum [(mxP7, Sev.null)] = .null := by decide
+            rw [e2] at h
+            exact ⟨sk', hsk, h⟩)
+  exact ⟨res, hr, hm, hrep, hex ⟨.simple wBad, by simp [mxSteps], by decide⟩⟩
 
 /-! ### a stray `/` or `\` in front of a parameter is dropped without a word (finding
     `detect:stray-slash-or-backslash-between-parameters`; the model agrees with the code) -/
